@@ -305,6 +305,62 @@ def r3_placeholder(ctx):
                   where=where(f))
 
 
+def r5b_per_packet_state(ctx):
+    """the attachment hand-back state belongs to one packet: __init__ binds
+    a fresh list / a zero count on every path before decoding, the Packet
+    class carries no mutable class-level default, and nothing but the append
+    (and the fresh binding) writes the list."""
+    m = ctx.model
+    c = m.cls('Packet')
+    for name, v in c.class_attrs.items():
+        ctx.check(not isinstance(v, (ast.List, ast.Dict, ast.Set)) and
+                  not (isinstance(v, ast.Call) and U(v.func) in (
+                      'list', 'dict', 'set', 'bytearray')),
+                  'Packet.' + name, 'no mutable class-level default',
+                  key='class-level-mutable ' + name,
+                  reason='Packet.%s is a mutable object shared by every '
+                  'packet of the process: two binary packets decoded at '
+                  'overlapping times mix their attachments' % name,
+                  where=c.module.relpath)
+    f = m.own_method('Packet', '__init__')
+    run = run_function(f, m)
+    for p in run.paths:
+        if not p.normal:
+            continue
+        dec = p.calls('decode')
+        for attr, kind in (('attachments', 'list'),
+                           ('attachment_count', 'zero')):
+            st = [e for e in p.events if e.kind == 'store' and
+                  U(e.expr) == 'self.' + attr]
+            fresh = [e for e in st if (
+                kind == 'list' and isinstance(run.expand(e.extra), ast.List)
+                and not run.expand(e.extra).elts) or (
+                kind == 'zero' and is_const(e.extra, 0))]
+            ok = bool(fresh) and (not dec or fresh[0].idx < dec[0].idx)
+            ctx.check(ok, 'Packet.__init__', 'self.%s is bound to a fresh '
+                      '%s on every path, before decoding' % (
+                          attr, '[]' if kind == 'list' else '0'),
+                      key='per-packet ' + attr, reason='self.%s is not '
+                      '(re)initialised per packet on path %s' % (
+                          attr, p.describe()[:100]), where=where(f))
+    # writers of the list
+    for g in c.methods.values():
+        for n in walk_own(g.node):
+            if isinstance(n, ast.Delete) and any(
+                    'self.attachments' in U(t) for t in n.targets):
+                ctx.bad('Packet.' + g.name, 'attachments-deleted',
+                        'the attachment list is emptied in place (%s)'
+                        % U(n)[:50], where(g, n))
+            if isinstance(n, ast.Call) and \
+                    isinstance(n.func, ast.Attribute) and \
+                    U(n.func.value) == 'self.attachments' and \
+                    n.func.attr in ('clear', 'pop', 'remove', 'insert',
+                                    'extend', 'sort', 'reverse'):
+                ctx.bad('Packet.' + g.name, 'attachments-mutated',
+                        'the attachment list is modified other than by '
+                        'append (%s)' % U(n)[:50], where(g, n))
+
+
 def flatten_add(node):
     if isinstance(node, ast.BinOp) and isinstance(node.op, ast.Add):
         return flatten_add(node.left) + flatten_add(node.right)
@@ -476,6 +532,9 @@ def run(ctx):
     ctx.rule('C12.R2', 'hand-back protocol and decoder guards (shared rule)',
              floor=6)
     c12.r2_guards(ctx)
+    ctx.rule('C01.R5', 'hand-back state is per packet (fresh list and count '
+             'in __init__, no mutable class default, append-only)', floor=4)
+    r5b_per_packet_state(ctx)
     ctx.rule('C01.R6', 'scanner order and separators agree with the emitter',
              floor=2)
     r6_scanner(ctx)
